@@ -192,6 +192,7 @@ class C28(Check):
         if (out, rc) != (expected, exp_rc):
             raise OracleSplit(f"model vs GNU ld ({ref_mode}): {_first_diff(out, expected)} rc={rc}/{exp_rc}")
         feats = self._features(prog)
+        ref_checked = set()
         linked = []
         classes = [f"family:{fam}"]
         for i, v in enumerate(case["variants"]):
@@ -206,6 +207,15 @@ class C28(Check):
                 classes.append("variant_rejected:" + _errline(out)[:40])
                 continue
             if (out, rc) != (expected, exp_rc):
+                if mode != ref_mode and mode not in ref_checked:
+                    # The reference was taken in another output kind: before judging wild, GNU ld at default options
+                    # must produce the expected behaviour in *this* kind too (a broken start-up file or library for
+                    # one kind would otherwise be blamed on wild).
+                    s2, out2, rc2 = progen.behaviour("ld", mode, em["objs"], ctx, f"ref_{mode}", libs=em["libs"])
+                    if s2 != "ok" or (out2, rc2) != (expected, exp_rc):
+                        raise OracleSplit(f"GNU ld at default options does not give the model's behaviour in kind {mode} "
+                                          f"({s2}, rc={rc2}): no reference for this variant")
+                    ref_checked.add(mode)
                 site = "program-crashes" if (rc < 0 and not out) else self._first_bad_site(prog, out)
                 raise Violation(f"behaviour-differs:{site}",
                                 f"wild {mode} {opts}: {_first_diff(out, expected)} (rc {rc}, expected {exp_rc}); GNU ld default and "
